@@ -1,1 +1,20 @@
-// Verification accessors for src/tcp_source.rs (child module of it; included under cfg(rustradio_verif)).
+// Verification accessors for src/tcp_source.rs (child module; cfg(rustradio_verif)).
+use super::*;
+
+/// A TcpSource around an already "connected" stream (no connect syscall).
+pub fn with_stream<T: Copy + Default>(stream: std::net::TcpStream) -> (TcpSource<T>, ReadStream<T>) {
+    let (dst, dr) = crate::stream::new_stream();
+    (
+        TcpSource {
+            stream,
+            buf: Vec::new(),
+            dst,
+        },
+        dr,
+    )
+}
+
+/// Bytes of an incomplete sample currently held back.
+pub fn pending<T: Copy>(s: &TcpSource<T>) -> usize {
+    s.buf.len()
+}
